@@ -3,6 +3,7 @@ package rules
 import (
 	"fmt"
 	"go/token"
+	"go/types"
 	"sort"
 
 	"golang.org/x/tools/go/ssa"
@@ -23,6 +24,7 @@ const (
 	srcParam                         // parameter of a named in-repo function (obligation moves to callers)
 	srcNil                           // the nil constant (an unset variable)
 	srcLoopCarried                   // value carried over from the previous loop iteration (φ at a loop header)
+	srcContainer                     // taken out of a map / slice of row objects kept by the function (a per-request cache)
 	srcUnknown
 )
 
@@ -126,6 +128,15 @@ func rowSources(p *core.Program, v ssa.Value, seen map[ssa.Value]bool) []rowSrc 
 	case *ssa.Extract:
 		if call, ok := x.Tuple.(*ssa.Call); ok && x.Index == 0 {
 			return rowSourcesOfCall(p, call, seen, v)
+		}
+		if lk, ok := x.Tuple.(*ssa.Lookup); ok && x.Index == 0 {
+			if _, isMap := lk.X.Type().Underlying().(*types.Map); isMap {
+				return []rowSrc{{kind: srcContainer, val: v}}
+			}
+		}
+	case *ssa.Lookup:
+		if _, isMap := x.X.Type().Underlying().(*types.Map); isMap {
+			return []rowSrc{{kind: srcContainer, val: v}}
 		}
 	case *ssa.Call:
 		return rowSourcesOfCall(p, x, seen, v)
@@ -324,6 +335,9 @@ func R02R03() Rule {
 				case srcLoopCarried:
 					ok = false
 					c.Bad("R02", construct+"/carried-across-iterations", pos, "the row written here can be the row object of the previous loop iteration (it is kept in a variable across iterations instead of being read afresh): mutations of a previous element — including the partial mutations of an element that failed — are carried into this element's write")
+				case srcContainer:
+					ok = false
+					c.Bad("R02", construct+"/row-object-reused", pos, "the row written here is taken out of a map of row objects kept across the elements of the request instead of being read afresh: the applier mutates rows in place and stops at the first invalid mutation, so the half-mutated row of an element that failed is stored by a later element for the same key")
 				case srcParam:
 					why = append(why, fmt.Sprintf("parameter %d of %s (obligation carried by its callers)", s.param, core.FuncName(s.fn)))
 				case srcReader:
